@@ -6,8 +6,18 @@ pub mod c03;
 pub mod c04;
 pub mod c15;
 pub mod c05;
+pub mod c06;
 pub mod c09;
+pub mod c10;
+pub mod c11;
+pub mod c12;
+pub mod c13;
+pub mod c14;
+pub mod c16;
 pub mod c17;
+pub mod c18;
+pub mod c19;
+pub mod c20;
 
 pub fn run(name: &str, ctx: &mut Ctx) -> bool {
     match name {
@@ -18,8 +28,18 @@ pub fn run(name: &str, ctx: &mut Ctx) -> bool {
         "c04" => c04::run(ctx),
         "c15" => c15::run(ctx),
         "c05" => c05::run(ctx),
+        "c06" => c06::run(ctx),
         "c09" => c09::run(ctx),
+        "c10" => c10::run(ctx),
+        "c11" => c11::run(ctx),
+        "c12" => c12::run(ctx),
+        "c13" => c13::run(ctx),
+        "c14" => c14::run(ctx),
+        "c16" => c16::run(ctx),
         "c17" => c17::run(ctx),
+        "c18" => c18::run(ctx),
+        "c19" => c19::run(ctx),
+        "c20" => c20::run(ctx),
         _ => return false,
     }
     true
